@@ -330,6 +330,8 @@ def run(cx, rep):
             rep.ob("C15.3", "%s/quoted-keys" % cn, quoted,
                    "%s.describeTypeExpr interpolates property names into the type text unquoted: a property such as \"a-b\" prints `a-b: string`, which is not valid TypeScript" % cn,
                    mod.loc(c), sample={"class": cn, "key_expr": ktxt})
+    rep.rule("C15.14", "a property name is printed bare only if TypeScript reads it as an identifier")
+    bare_key_rule(cx, rep, mod, "C15.14")
     rep.rule("C15.13", "a chain of members joined by | or & is parenthesised where it is built")
     infix_parenthesised_rule(cx, rep, fam, mod, "C15.13")
     rep.rule("C15.5", "describeChildren yields every child validator that describe() descends into")
@@ -710,3 +712,83 @@ def infix_parenthesised_rule(cx, rep, fam, mod, rid):
                    "%s.describeTypeExpr returns its members joined with ` %s ` without parentheses around the whole chain: pasted into a surrounding type (as a member of an intersection, or in place of a reference that is printed as its target) the operators regroup - `A & X | Y` is `(A & X) | Y` - and the description compiles to a different validator" % (cn, op),
                    mod.loc(r), sample={"class": cn, "operator": op})
     rep.floor(rid, "describeTypeExpr returns that join members with an infix operator", n, 4)
+
+
+# ---------------------------------------------------------------------------------------------------- C15.14
+_START_OK = {"A-Z", "a-z", "_", "$", "\\p{L}", "\\p{Lu}", "\\p{Ll}", "\\p{Lt}", "\\p{Lm}", "\\p{Lo}", "\\p{Nl}", "\\p{ID_Start}", "\\p{IDS}", "\\p{XID_Start}", "\\p{Letter}", "\\$"}
+_CONT_OK = _START_OK | {"0-9", "\\d", "\\w", "\\p{Mn}", "\\p{Mc}", "\\p{Nd}", "\\p{Pc}", "\\p{ID_Continue}", "\\p{IDC}", "\\p{XID_Continue}", "\\u200c", "\\u200d", "\\u200C", "\\u200D"}
+
+
+def _class_items(body):
+    """items of a character class body: ranges `a-z`, escapes `\\p{..}` / `\\d` / `\\uXXXX`, single characters"""
+    items, i = [], 0
+    while i < len(body):
+        m = re.match(r"\\[pP]\{[^}]*\}|\\u\{[0-9a-fA-F]+\}|\\u[0-9a-fA-F]{4}|\\x[0-9a-fA-F]{2}|\\.", body[i:])
+        tok = m.group(0) if m else body[i]
+        j = i + len(tok)
+        if j + 1 < len(body) and body[j] == "-" and not tok.startswith("\\p"):
+            m2 = re.match(r"\\u\{[0-9a-fA-F]+\}|\\u[0-9a-fA-F]{4}|\\x[0-9a-fA-F]{2}|\\.", body[j + 1:])
+            tok2 = m2.group(0) if m2 else body[j + 1]
+            items.append(tok + "-" + tok2)
+            i = j + 1 + len(tok2)
+        else:
+            items.append(tok)
+            i = j
+    return items
+
+
+def bare_key_rule(cx, rep, mod, rid):
+    """describe() prints an object member as `key: T` or `"key": T`.  The bare form is TypeScript only if the lexer
+    reads the key as ONE identifier: ID_Start ID_Continue*, i.e. letters (general category L, Nl), `_`, `$`, then also
+    marks (Mn, Mc), decimal digits (Nd) and connector punctuation (Pc).  Superscripts, fractions, circled digits
+    (category No, part of \\p{N}) or any punctuation are not identifier characters: `{ CO₂: number }` does not lex.
+    Decided on the regular expression that chooses between the bare and the quoted form (the function that returns
+    either its argument or JSON.stringify of it): it is anchored `^[start][continue]*$` and every item of the two
+    character classes is within the identifier categories."""
+    n = 0
+    consts = {k: unparen(v[1]) for k, v in mod.vars.items() if v[1] is not None}
+    fns = list(mod.functions.items()) + [(vn, init) for vn, (_k, init, _d) in mod.vars.items() if init is not None and init.get("type") in ("ArrowFunctionExpression", "FunctionExpression")]
+    fns += [("%s.%s" % (cn, mn), m["function"]) for cn, c in mod.classes.items() for mn, m in c.methods.items()]
+    for fname, fn in fns:
+        if fn.get("body") is None:
+            continue
+        ps = [p for p in ts_common.fn_params(fn) if p]
+        if not ps:
+            continue
+        txt = "".join(mod.text(fn["body"]).split()) if hasattr(mod, "text") else ""
+        for pn in ps:
+            if ("JSON.stringify(%s)" % pn) not in txt:
+                continue
+            tests = [x for x in walk(fn) if x["type"] == "CallExpression" and method_call(x) and method_call(x)[1] == "test" and method_call(x)[2] and s(method_call(x)[2][0]) == pn]
+            # the bare form must also be returned
+            bare = any(r_["type"] == "ReturnStatement" and r_.get("argument") is not None and s(unparen(r_["argument"])) == pn for r_ in walk(fn)) or \
+                any(c_["type"] == "ConditionalExpression" and pn in (s(unparen(c_["consequent"])), s(unparen(c_["alternate"]))) for c_ in walk(fn))
+            if not tests or not bare:
+                continue
+            for t in tests:
+                rx = unparen(method_call(t)[0])
+                if rx.get("type") == "Identifier" and rx["value"] in consts:
+                    rx = consts[rx["value"]]
+                n += 1
+                if rx.get("type") != "RegExpLiteral":
+                    rep.ob(rid, "%s/identifier-regex" % fname, False, "%s chooses between a bare and a quoted property name with `%s`, which is not a regular expression literal the rule can read" % (fname, s(rx)[:60]), mod.loc(t))
+                    continue
+                pat, flags = rx.get("pattern", ""), rx.get("flags", "")
+                m = re.match(r"^\^\[((?:\\.|[^\]\\])*)\](?:\[((?:\\.|[^\]\\])*)\]\*)?\$$", pat)
+                bad = []
+                if not m:
+                    bad.append("the pattern /%s/ is not of the form ^[start][continue]*$" % pat)
+                else:
+                    for it in _class_items(m.group(1)):
+                        if it not in _START_OK:
+                            bad.append("`%s` may start a bare key" % it)
+                    for it in _class_items(m.group(2) or ""):
+                        if it not in _CONT_OK:
+                            bad.append("`%s` may continue a bare key" % it)
+                    if "i" in flags:
+                        pass
+                rep.ob(rid, "%s/identifier-regex" % fname, not bad,
+                       "%s prints a property name without quotes when it matches /%s/%s, but %s: characters outside ID_Start / ID_Continue (category No - superscripts, fractions, circled digits -, punctuation, ..) make the printed member `key: T` something TypeScript does not lex, so compiling the description back fails" % (
+                           fname, pat, flags, "; ".join(bad)),
+                       mod.loc(t), sample={"fn": fname, "pattern": pat, "flags": flags})
+    rep.floor(rid, "bare-or-quoted property name tests", n, 1)
